@@ -738,6 +738,7 @@ size_t LZ4F_compressBegin_internal(LZ4F_cctx* cctx,
     if (cctx->prefs.frameInfo.blockSizeID == 0)
         cctx->prefs.frameInfo.blockSizeID = LZ4F_BLOCKSIZEID_DEFAULT;
     cctx->maxBlockSize = LZ4F_getBlockSize(cctx->prefs.frameInfo.blockSizeID);
+    FORWARD_IF_ERROR(cctx->maxBlockSize);   /* invalid blockSizeID */
 
     {   size_t const requiredBuffSize = preferencesPtr->autoFlush ?
                 ((cctx->prefs.frameInfo.blockMode == LZ4F_blockLinked) ? 64 KB : 0) :  /* only needs past data up to window size */
